@@ -504,9 +504,9 @@ class Impl:
             _, name, dt, d = w
             try:
                 if new:
-                    layer = self.grid.create_property_layer(name, default_value=self.to_py(dt, int(d)), dtype=eval(dt))
+                    layer = self.grid.create_property_layer(name, default_value=self.pyval(dt, d), dtype=eval(dt))
                 else:
-                    layer = self.M["OldLayer"](name, self.dims[0], self.dims[1], self.to_py(dt, int(d)), dtype=eval(dt))
+                    layer = self.M["OldLayer"](name, self.dims[0], self.dims[1], self.pyval(dt, d), dtype=eval(dt))
                     self.grid.add_property_layer(layer)
             except ValueError as e:
                 raise self.value_error(e) from None
@@ -517,13 +517,13 @@ class Impl:
             dims = parse_dims(dims)
             try:
                 if new and sum(map(ord, "".join(w))) % 2 == 0 and all(dims):
-                    layer = self.M["NewLayer"].from_data(name, np.full(dims, self.to_py(dt, int(d)), dtype=eval(dt)))
+                    layer = self.M["NewLayer"].from_data(name, np.full(dims, self.pyval(dt, d), dtype=eval(dt)))
                 elif new:
-                    layer = self.M["NewLayer"](name, dims, default_value=self.to_py(dt, int(d)), dtype=eval(dt))
+                    layer = self.M["NewLayer"](name, dims, default_value=self.pyval(dt, d), dtype=eval(dt))
                 else:
                     if len(dims) != 2:
                         raise Reject("Value dims")
-                    layer = self.M["OldLayer"](name, dims[0], dims[1], self.to_py(dt, int(d)), dtype=eval(dt))
+                    layer = self.M["OldLayer"](name, dims[0], dims[1], self.pyval(dt, d), dtype=eval(dt))
             except ValueError as e:
                 raise self.value_error(e) from None
             self.layers.append((layer, dt))
@@ -943,7 +943,11 @@ class Impl:
         if k in ("create", "new"):
             lid = int(out.split("=")[1])
             dims = self.dims if k == "create" else parse_dims(w[2])
-            exp.append([int(w[-1])] * len(all_cells(dims)))
+            # np.full(dims, default, dtype): a default of another Python type is cast like an assignment
+            dflt = spec_cast(w[-2], w[-1]) if is_typed(w[-1]) else int(w[-1])
+            exp.append([dflt] * len(all_cells(dims)))
+            if new["dtypes"][lid] != w[-2]:
+                self.fail("dtype", f"{' '.join(w)}: the new layer's dtype is {new['dtypes'][lid]}")
             if lid != len(exp) - 1:
                 self.fail("effect", f"{' '.join(w)} returned id {lid}")
         elif k in ("lset", "cset2"):
@@ -1254,7 +1258,7 @@ class Gen:
         # the grid itself writes raw True/False into whatever layer is called "empty": with the 1/4 encoding
         # of float layers that would not be the model's 1/0, so a user-made "empty" layer is bool or int
         dt = R.choice(DTYPES if name != "empty" else DTYPES[:2])
-        d = self.val(dt)
+        d = self.wval(dt, 0.25)  # a default of another Python type only draws a UserWarning: np.full casts it
         if R.random() < (0.3 if self.rejecting else 0.25):
             # free-standing layer, possibly mis-shaped, attached later
             if R.random() < (0.5 if self.rejecting else 0.2):
